@@ -385,6 +385,107 @@ def r20_5(ck: Check) -> None:
     check_receive(ck)
 
 
+DECODERS = {"decode", "fromhex", "index", "unpack", "unpack_from", "loads"}
+
+
+def outside_catch_all(ck: Check) -> List[str]:
+    """functions that run in the event loop but not under the per-connection catch-all: the managers' step methods, the accept path,
+    and whatever they call"""
+    roots = sorted(q for q in ck.repo.functions if q.startswith("skepticoin.networking.manager.") and q.endswith(".step"))
+    roots += [LPQ + "step_managers", LPQ + "handle_incoming_connection"]
+    seen: List[str] = []
+
+    def reach(q: str) -> None:
+        if q in seen or q not in ck.repo.functions:
+            return
+        seen.append(q)
+        for e in ck.summ(q, 0).events:
+            if e.kind != "call" or e.chain:
+                continue
+            for t in e.targets:
+                if t.startswith("new:"):
+                    init = ck.repo.find_method(t[4:], "__init__")
+                    if init is not None:
+                        reach(init.qualname)
+                else:
+                    reach(t)
+            if not e.targets and e.parts and e.parts[0][0] == "a":
+                # receiver of unknown type: every method of that name in the networking package may be meant
+                for q2, fi2 in ck.repo.functions.items():
+                    if fi2.name == e.parts[0][2] and fi2.cls is not None and fi2.module.name.startswith("skepticoin.networking."):
+                        reach(q2)
+        # helpers added after the rule tables were written are expanded in place by the summariser (no call event): follow them by name
+        for n in ast.walk(ck.repo.functions[q].node):
+            if isinstance(n, ast.Call):
+                nm = n.func.attr if isinstance(n.func, ast.Attribute) else (n.func.id if isinstance(n.func, ast.Name) else None)
+                if nm in helpers:
+                    for q2 in helpers[nm]:
+                        reach(q2)
+    helpers: Dict[str, List[str]] = {}
+    for q0, fi0 in ck.repo.functions.items():
+        if ck.walker.transparent(q0):
+            helpers.setdefault(fi0.name, []).append(q0)
+    for r in roots:
+        reach(r)
+    return seen
+
+
+def decoding_sites(fn: ast.AST) -> List[Tuple[int, str]]:
+    """calls that turn stored bytes / text into something else and fail on malformed content, not enclosed in a handler for it"""
+    parents: Dict[int, ast.AST] = {}
+    for n in ast.walk(fn):
+        for c in ast.iter_child_nodes(n):
+            parents[id(c)] = n
+    out = []
+    for n in ast.walk(fn):
+        if not isinstance(n, ast.Call):
+            continue
+        d = dotted(n.func) or (("?." + n.func.attr) if isinstance(n.func, ast.Attribute) else "")
+        last = d.split(".")[-1]
+        if not (last in DECODERS or d.startswith("ipaddress.") or d.startswith("json.")):
+            continue
+        if last == "decode" and isinstance(n.func, ast.Attribute) and isinstance(n.func.value, ast.Call) and (dotted(n.func.value.func) or "").endswith("hexlify"):
+            continue        # hexadecimal digits are ASCII
+        cur: Optional[ast.AST] = n
+        caught = False
+        while cur is not None and cur is not fn:
+            par = parents.get(id(cur))
+            if isinstance(par, ast.Try) and cur in par.body:
+                for h in par.handlers:
+                    names = [] if h.type is None else [dotted(x) or "" for x in (h.type.elts if isinstance(h.type, ast.Tuple) else [h.type])]
+                    if h.type is None or any(x.split(".")[-1] in ("Exception", "BaseException", "ValueError", "UnicodeDecodeError", "UnicodeError") for x in names):
+                        caught = True
+            cur = par
+        if not caught:
+            out.append((n.lineno, ast.unparse(n)[:70]))
+    return out
+
+
+def r20_10(ck: Check) -> None:
+    """what a peer sent may be *kept* by its connection object (user agent, addresses, ids) and looked at later by code that runs outside
+    the per-connection catch-all; there it must not be decoded: a decoding failure would end the event loop for everybody"""
+    ctl = ast.parse("def f(p):\n    return p.user_agent.decode('utf-8')\n").body[0]
+    ctl_ok = ast.parse("def f(p):\n    try:\n        return p.user_agent.decode('utf-8')\n    except UnicodeDecodeError:\n        return ''\n").body[0]
+    if len(decoding_sites(ctl)) != 1 or decoding_sites(ctl_ok):
+        ck.unknown("R20.10", "positive control", "the decoding-site scan did not behave on its control snippets")
+        return
+    fns = outside_catch_all(ck)
+    if len(fns) < 30:
+        ck.unknown("R20.10", "functions outside the catch-all", "only %d functions found reachable from the managers' step methods (64 on the recorded tree)" % len(fns))
+        return
+    ck.analysed(*fns)
+    bad = 0
+    for q in fns:
+        fi = ck.repo.functions[q]
+        for line, text in decoding_sites(fi.node):
+            bad += 1
+            ck.violated("R20.10", "%s (runs outside the per-connection catch-all) does not decode stored data: %s" % (short(q), text),
+                        "malformed content kept from a peer (e.g. a user agent that is not UTF-8) raises here, outside every per-connection "
+                        "handler: the event loop ends and every connection with it", "%s:%d" % (fi.module.path, line))
+    if not bad:
+        ck.ok("R20.10", "no function that runs outside the per-connection catch-all decodes stored bytes / text", "%d functions" % len(fns), "")
+
+
 def check(ck: Check) -> None:
     ck.explanations.append(
         "C20: exception containment (every peer-driven call and every may-raise call of the selector-event handler is inside a non-re-raising "
@@ -397,6 +498,7 @@ def check(ck: Check) -> None:
     ck.run("R20.5", "bounded reads", lambda: r20_5(ck))
     ck.run("R20.7", "dialling an announced address cannot end the loop", lambda: r20_7(ck))
     ck.run("R20.9", "outgoing dials are capped below the descriptor limit", lambda: r20_9(ck))
+    ck.run("R20.10", "nothing outside the per-connection catch-all decodes what peers sent", lambda: r20_10(ck))
     ck.run("R20.8", "the event loop ends only through its flag, dispatches every ready socket, and never waits unboundedly", lambda: r20_8(ck))
     from .c09 import r09_5
     ck.run("R09.5", "buffering a block before validation writes nothing", lambda: r09_5(ck))
